@@ -29,9 +29,10 @@ Two sets of history variables are added *outside* the model (they never block a 
 * `C12_mutex_events`, `C12_writer_unique` — `mlk` / `mul` bracket critical sections, at most one thread is inside;
 * `C12_mutation_by_holder` — until the destructor runs, the linked list changes only by a step of the mutex holder and
   then by exactly one `push_front / push_back / erase` of the sequential reference (`applyW` on a `List`);
-* `C12_serial`, `C12_serial_order`, `C12_push_linearised` — the linked list is the result of executing the logged
-  mutations one after the other on the empty list; they are logged in acquisition order, at most one per critical
-  section, and a `push` that reaches its unlock has logged exactly its own. -/
+* `C12_serial`, `C12_serial_order`, `C12_push_linearised`, `C12_mutation_logged` — the linked list is the result of
+  executing the logged mutations one after the other on the empty list; they are logged in acquisition order, at most
+  one per critical section; a `push` that reaches its unlock, and an `erase` of a not yet erased node after its
+  unlinking store, has logged exactly its own. -/
 namespace ConcVerif.Rcu
 
 /-! ## Traversal -/
@@ -264,6 +265,13 @@ theorem C12_serial_order {s : St} {w : Wh} (h : ReachableW (s, w)) :
 theorem C12_push_linearised {s : St} {w : Wh} (h : ReachableW (s, w)) {t : Tid} {k : Op} (hp : s.pc t = .pUnlock k) :
     ∃ x ∈ w.hist, x.1 = w.ncs :=
   (invW_reachable h).done t (by rw [hp]; rfl)
+
+/-- More generally: a `push` after its linking store, and an `erase` that found its node not yet erased, after its
+unlinking store (`pushDone`: the pcs from there up to the release of the mutex), has logged its mutation in this
+critical section. -/
+theorem C12_mutation_logged {s : St} {w : Wh} (h : ReachableW (s, w)) {t : Tid} (hp : pushDone (s.pc t) = true) :
+    ∃ x ∈ w.hist, x.1 = w.ncs :=
+  (invW_reachable h).done t hp
 
 /-! ## Non-vacuity: a real trace (harness seed 420, PCT scheduler) of
 `int-d;lw,pb=1,pb=2,pb=3,rel,lw,eri=1,rel;lr,all,rel`.  The reader (thread 2) sits on node `N1` while the writer
